@@ -15,6 +15,7 @@ case "$p" in
  C06) t='TestVerifRegressD3$|TestVerifRegressD4$' ;;
  C15) t='TestVerifRegressD6$|TestVerifRegressD7$' ;;
  C19) t='TestVerifRegressD8$' ;;
+ C09) t='TestVerifRegressD5$' ;;
 esac
 if [ -n "$t" ]; then
  mkdir -p replays/$p
